@@ -682,5 +682,19 @@ def template_project():
     sm["children"] = [["types", st], ["variables", snl_v], ["namelists", snl],
                       ["modprocedures", mp_impl("modproc", x1)], ["modsubroutines", mp_impl("modsub", x2)],
                       ["modfunctions", mp_impl("modfun", x3)], ["subroutines", proc("subroutine", "private", "private")]]
-    f["children"] = [["modules", m], ["submodules", sm], ["programs", pg], ["procs", top]]
+    # a default-public module: derived types made private by attribute / by statement, and a public one, each
+    # with its constructor interface (which has the type's accessibility)
+    m2 = mk(ids, "module", "NModule", "m", "public", True)
+    m2["default"] = None
+    helper = proc("subroutine", "public", "public")
+    for perm, by_stmt in (("private", False), ("private", True), ("public", False)):
+        ty = mk(ids, "type", "NType", "t", perm, True)
+        ty["comp_default"] = ty["bind_default"] = None
+        ty["by_stmt"] = by_stmt
+        ty["children"] = [["variables", mk(ids, "comp", "NOther", "c", "public", True)]]
+        kc = mk(ids, "constructor", "NOther", "g", perm, True)
+        kc["ctor_of"], kc["members"] = ty["name"], [helper["name"]]
+        m2["children"] += [["types", ty], ["interfaces", kc]]
+    m2["children"].append(["subroutines", helper])
+    f["children"] = [["modules", m], ["modules", m2], ["submodules", sm], ["programs", pg], ["procs", top]]
     return [f], {"file": f, "module": m, "type": t, "procedure": p_pub, "submodule": sm}
